@@ -354,6 +354,7 @@ func runC11(p *eng.Prog, r *eng.Report, tier string) {
 			c.dom("C11.6", st, w.Stmt, "'@' inserted", []string{"lt(0,recv.locallen)"})
 		}
 		c.r.Floor("C11.6", "'@' insertion in String", nat, 1)
+		c11StringLengths(c, "C11.6")
 		_ = g
 	}
 
